@@ -465,12 +465,12 @@ let do_line w toks : ostring =
     show w (run_op w (ODimAdd (nat_of_int oid, d, HNone)))
   | "dim" :: o :: "frame" :: r :: rest ->
     let oid = recv w (num o) "A" in
-    (* the overload with a column index: the front end compares it with the frame's columns FIRST (index > #columns:
+    (* the overload with a column index: the front end compares it with the frame's columns FIRST (index >= #columns since b527e42:
        OutOfBounds — of a none handle that dereferences nothing: UninitializedEntity either way) *)
     let a = arg w (dec_ref r) 'D' in
     let too_big = (match rest, a with
         | [c], HEnt f -> (match find_ent (w.ss.s_db) f with
-            | Some e -> oint_of_string c > OLst.length e.e_pay.p_cols
+            | Some e -> oint_of_string c >= OLst.length e.e_pay.p_cols
             | None -> false)
         | _ -> false) in
     if too_big then (match w.ss.s_mode with Some _ -> "ERR nix::OutOfBounds" | None -> "ERR nix::UninitializedEntity")
